@@ -301,13 +301,21 @@ def run(ctx):
                     res.write = write
                     return res
                 _tf.NamedTemporaryFile = ntf
+                fired = [False]
                 try:
                     mgr._cache(zk, target)          # pylint: disable=protected-access
                 except Injected:
+                    fired[0] = None
                     ctx.count('failpoints_raised')
                     ctx.count('midwrite_failures')
                 finally:
                     _tf.NamedTemporaryFile = orig_ntf
+                if fired[0] is not None and len(_yaml.safe_dump(expected_content[target])) > limit + 64:
+                    # the disk did fill up, yet the call reported success: then the file must be there and complete
+                    ok_, what_ = acceptable(target) if os.path.exists(tpath) else (False, 'missing')
+                    if not ok_ or what_ != 'new':
+                        ctx.violation('write-fault-swallowed', 'the disk filled up %d bytes into the manifest of %s, _cache returned '
+                                      'normally, and the cache file is %s' % (limit, target, what_), case=dict(case=idx, limit=limit))
                 reader_view('after-failed-write', 'after the disk filled up %d bytes into the manifest' % limit)
                 left = [n for n in os.listdir(cache) if n.startswith('.' + target)]
                 if left:
@@ -321,6 +329,11 @@ def run(ctx):
                         raise Injected(5, 'injected I/O error at %s' % label)
                 try:
                     with_hooks(fail)
+                    if can_fail(points[k - 1]) and points[k - 1].startswith(('before:', 'line:write_safe')):
+                        ok_, what_ = acceptable(target) if os.path.exists(tpath) else (False, 'missing')
+                        if not ok_ or what_ != 'new':
+                            ctx.violation('write-fault-swallowed', 'an I/O error injected at %s did not propagate out of _cache and the '
+                                          'cache file of %s is %s' % (points[k - 1], target, what_), case=dict(case=idx, point=k))
                 except Injected:
                     ctx.count('failpoints_raised')
                 except Exception:      # noqa
